@@ -296,3 +296,17 @@ Definition matured_ok (op : cop) : bool := match op with AddMatured _ a => 0 <=?
 Definition chunk_index (o : opts) (h : Z) : Z := Z.quot h (o_interval o) + 1.
 Definition matures_at (o : opts) (h : Z) : bool := Z.rem h (o_interval o) =? 0.
 Definition matured_index (o : opts) (h : Z) : Z := chunk_index o h - 2.
+
+(* ------------------------------------------------------------------------------------------ *)
+(* the WITHDRAW_REWARD transaction (action/rewards/withdraw.go) as far as the cumulative records go.
+   [value] is the amount field as sent (whole OLT).  Validate (run by CheckTx and, since d276709, by
+   DeliverTx) refuses a negative value (45cfd0d: WithdrawAmount.IsValid); runWithdraw then narrows
+   it with ToCoinWithBase — big.Int.Int64(), i.e. wrap64 — and multiplies by 10^18; the transaction
+   fails (and its session is discarded) when the matured balance or the rewards pool is short.
+   Result: (accepted, balance', withdrawn'). *)
+Definition withdraw_tx (value bal wd pool : Z) : bool * Z * Z :=
+  if value <? 0 then (false, bal, wd)
+  else
+    let a := wrap64 value * UNIT in
+    if (bal - a <? 0) || (pool - a <? 0) then (false, bal, wd)
+    else (true, bal - a, wd + a).
